@@ -867,3 +867,44 @@ def s02_11_every_key_tries_every_signature(ctx, P):
         why = 'anchor: verification call / loop over signature indices / loop over (key, slot) pairs not found (%d/%d/%d)' % (len(vs), len(rng), len(pair))
     ctx.check(P + ':S02-11:every-key-tries-every-signature', 'R-sib', 'Message::verify_nested tries every signature index for every key (nested loops; the index is not the key position)',
               ok, function=b.path, sites=[site(b, i) for i, _ in vs], missing=why)
+
+
+def hash_dispatch_tables_agree(ctx, P):
+    """Sign and verify pick the digest TYPE (and with it the DigestInfo prefix of PKCS#1 v1.5) in separate `match hash { .. }` tables.
+    Within one crypto module, every function that dispatches on HashAlgorithm to a helper generic over the digest maps each variant
+    to the same digest type (resolved generic argument of the call in that arm) as its siblings do."""
+    from rules.common import arm_context
+    tables = {}
+    for p, r in sorted(ctx.f.bodies.items()):
+        if '::tests::' in p or 'crypto::' not in p or r.get('derived'):
+            continue
+        b = ctx.wrap(r)
+        dom = None
+        tab = {}
+        for i, t in b.calls():
+            full = t['f'].get('full') or ''
+            m = re.match(r'([\w:]+)::<(.*)>$', full)
+            if not m or not re.search(r'Core|sha1_checked::Sha1|Digest', m.group(2)) or not m.group(1).startswith('crypto::'):
+                continue
+            dom = dom or b.dominators()
+            arms = [vs for a, vs in arm_context(b, i, dom) if a == 'HashAlgorithm']
+            if not arms or len(min(arms, key=len)) != 1:
+                continue
+            tab[min(arms, key=len)[0]] = m.group(2)
+        if len(tab) >= 3:
+            mod = re.sub(r'^<', '', p).split(' as ')[0].rsplit('::', 2)[0] if p.startswith('<') else p.rsplit('::', 1)[0]
+            mod = re.search(r'crypto::\w+', p).group(0)
+            tables.setdefault(mod, {})[p] = tab
+    n = 0
+    for mod, fs in sorted(tables.items()):
+        if len(fs) < 2:
+            continue
+        names = sorted(fs)
+        ref = fs[names[0]]
+        for q in names[1:]:
+            n += 1
+            diff = {v: (ref[v][:60], fs[q][v][:60]) for v in ref if v in fs[q] and ref[v] != fs[q][v]}
+            ctx.check('%s:S06-10:hash-dispatch-agrees:%s' % (P, q), 'R-sib', '%s and %s map every HashAlgorithm variant to the same digest type' % (names[0].split('::')[-1], q.split('::')[-1]),
+                      not diff, function=q, table={v: fs[q][v][-40:] for v in sorted(fs[q])},
+                      missing=None if not diff else 'digest type per variant differs (%s vs %s): %s' % (names[0].split('::')[-1], q.split('::')[-1], diff))
+    ctx.floor(P + ':S06-10:floor', 'sibling hash dispatch tables', n, 1)
